@@ -129,7 +129,8 @@ def relWith (v : Re) : Re := seqs
 def vAny : Re := oneOf "vV"
 def abs : Re := absWith vAny
 def ref : Re := .alt (absWith vAny) (relWith vAny)
-/-- the same recogniser restricted to a lower-case `v` (what the toolkit's regex spells) -/
+/-- the same recogniser restricted to a lower-case `v` (what the toolkit's regex spelled before
+/repo 94adeaf; kept for reference, no theorem uses it any more) -/
 def absLower : Re := absWith (chr 'v')
 def refLower : Re := .alt (absWith (chr 'v')) (relWith (chr 'v'))
 end Oxiri
